@@ -30,6 +30,9 @@ REPLAYS = os.path.join(ROOT, "replays")
 REPO = os.environ.get("VERIF_REPO", "/repo")
 
 sys.path.insert(0, os.path.join(ROOT, "lib"))
+# engines in lib/props_*.py do `import check` (for run, ProofBroken, BUILD, REPO ...): make that
+# the SAME module object even when this file runs as __main__, so their ProofBroken is caught here
+sys.modules.setdefault("check", sys.modules[__name__])
 
 GOENV = dict(os.environ, GOFLAGS="-mod=mod", GOPROXY="off", GOSUMDB="off", GOTOOLCHAIN="local",
              CGO_ENABLED=os.environ.get("CGO_ENABLED", "0"))
@@ -437,6 +440,9 @@ def check(prop, tier):
                 cov["distinct_nontrivial"] += res.get("distinct_nontrivial", 0)
                 cov["samples"] += res.get("samples", [])[:3]
                 cov["families"][res["name"]] = res.get("stats", {})
+                # proof obligations an engine discharged itself (generated lemmas checked by coqc on this run)
+                cov["obligations"] += res.get("obligations", 0)
+                cov["discharged"] += res.get("obligations", 0)
                 for (kf, case, o) in res.get("known_hits", []):
                     known_hits.setdefault(kf["id"], (kf, case, o))
                 for v in res.get("violations", []):
